@@ -981,11 +981,14 @@ def _run_case(case):
                 continue
             v = judge(seq, target, out, exp, st, 'eval')
             if v is not None and v['tag'] == 'budget:steps' and \
-                    simple_paths(g, addr) >= 400:
-                # heavy sharing in front of the cycle / failure: the
-                # re-evaluating walk through the shared acyclic part is
+                    exp['cyc_live'] and world['class'] != 'fail_ladder' \
+                    and simple_paths(g, addr) >= 400:
+                # heavy sharing in front of a cycle in a random graph: the
+                # re-evaluating walk through the shared acyclic part that
+                # is evaluated *successfully* before the cycle is met is
                 # exponential by design and not this property's business
-                # (same rule as for acyclic graphs)
+                # (same rule as for acyclic graphs).  Ladders, where the
+                # failing cell is met first, and plain failures stay judged.
                 bump('expensive_walk_before_failure_not_judged')
                 continue
             if v is not None:
